@@ -131,20 +131,37 @@ def gen_location(rng, n, tier="quick"):
         # what the object's zone must be by the property, tracked independently of the object:
         # an accepted assignment sets it, a rejected one leaves it as it was
         shadow_tz = info.timezone
+        shadow = {"latitude": loc.latitude, "longitude": loc.longitude}
         # one object, a history that interleaves attribute assignments and method calls
         # (reading .observer / .info in between): stale per-object caches show up
         for _step in range(rng.randint(4, 14)):
             if rng.random() < 0.4:
                 k = rng.random()
                 try:
-                    if k < 0.25:
-                        v = rng.choice([rng.uniform(-100, 100), "51°30'N", "12.5", rng.randint(-90, 90)])
-                        loc.latitude = v
-                        history.append(("latitude", repr(v)))
-                    elif k < 0.55:
-                        v = rng.choice([rng.uniform(-200, 200), "0°7'W", "-77.03", rng.randint(-180, 180)])
-                        loc.longitude = v
-                        history.append(("longitude", repr(v)))
+                    if k < 0.55:
+                        attr, lim = ("latitude", 90.0) if k < 0.25 else ("longitude", 180.0)
+                        if attr == "latitude":
+                            v = rng.choice([rng.uniform(-100, 100), "51°30'N", "12.5", rng.randint(-90, 90),
+                                            rng.randint(-200, 200), "200", "bad"])
+                        else:
+                            v = rng.choice([rng.uniform(-200, 200), "0°7'W", "-77.03", rng.randint(-180, 180),
+                                            rng.randint(-400, 400), "139°41'E", ""])
+                        history.append((attr, repr(v)))
+                        st_, r_ = call(setattr, loc, attr, v)
+                        # the stored value is what the model's dms_to_float makes of the argument with
+                        # THIS attribute's limit; a rejected assignment changes nothing
+                        got_now = getattr(loc, attr)
+                        i += 1
+                        yield Case("Location." + attr, "dms_to_float %s %s" % (corr_geo.arg_tok(v), F(lim)),
+                                   FS(got_now) if st_ == "ok" else E(r_),
+                                   {"history": list(history), "assigned": repr(v)})
+                        if st_ == "ok" and type(got_now) is float:
+                            shadow[attr] = got_now        # checked against the model by the case above
+                        elif st_ != "ok" and getattr(loc, attr) != shadow[attr]:
+                            i += 1
+                            yield Case("Location." + attr, "dms_to_float %s N" % F(shadow[attr]),
+                                       FS(getattr(loc, attr)) + " Xchanged-by-rejected-assignment",
+                                       {"history": list(history), "assigned": repr(v)})
                     elif k < 0.68:
                         v = rng.choice(TZ_NAMES + OLD_TZ_NAMES + ["Nowhere/Zone", "Europe/Lodnon", "Mars/Olympus"])
                         history.append(("timezone", v))
@@ -220,7 +237,7 @@ def gen_location(rng, n, tier="quick"):
                     dt_in = base.replace(tzinfo=zoneinfo.ZoneInfo(rng.choice(TZ_NAMES + OLD_TZ_NAMES)))
                 if dt_in is not None:
                     pos = [dt_in]
-            state = (loc.latitude, loc.longitude, shadow_tz, loc.solar_depression)
+            state = (shadow["latitude"], shadow["longitude"], shadow_tz, loc.solar_depression)
             with Recorder() as rec:
                 st, ret = call(getattr(loc, m), *pos, **kwargs)
             req = "loc_call %s %s %s %s %s %s %s %s %s %s" % (
